@@ -79,7 +79,7 @@ for _i in range(1, 21):
                                    "every recorded API call validated against CatImpl and judged by the CatMon monitors"}
 
 PROPS["C01"]["families"] = [GENERAL_S, fam("fam_prefix", 40, 800)]
-PROPS["C02"]["families"] = [GENERAL_S, fam("fam_prefix", 30, 500), fam("fam_lanes", 20, 200), fam("fam_casefold", 10, 200), fam("fam_lanes_wide", 6, 36)]
+PROPS["C02"]["families"] = [GENERAL_S, fam("fam_prefix", 30, 500), fam("fam_lanes", 20, 200), fam("fam_casefold", 10, 200), fam("fam_lanes_wide", 12, 36)]
 PROPS["C04"]["families"] = [GENERAL_S, fam("fam_num", 60, 1500)]
 PROPS["C19"]["families"] = [GENERAL_S, fam("fam_desc", 60, 1500)]
 
